@@ -25,127 +25,177 @@ Theorem expansion_adds_nothing : forall pats s, excl (gexpand gen pats) s = true
 Proof. intros. apply excl_gexpand_iff. reflexivity. Qed.
 Print Assumptions expansion_adds_nothing.
 
-Theorem compiled_patterns_are_the_good_ones : forall raw pats,
-  gcompile gen raw = Some pats -> forall r, In r pats <-> In (Good r) raw.
-Proof. intros raw pats. apply gcompile_good. reflexivity. Qed.
-Print Assumptions compiled_patterns_are_the_good_ones.
+(* NewExclusionRegexList: blank patterns are skipped, every other pattern is compiled AS GIVEN (not trimmed, not quoted):
+   the patterns [goods raw] the caller wrote are the patterns the theorems below speak about *)
+Theorem patterns_compiled_as_given : forall raw, ~ In Bad raw -> gcompile gen raw = Some (goods raw).
+Proof. intros raw NB. apply gcompile_goods_raw; [reflexivity|reflexivity|exact NB]. Qed.
+Print Assumptions patterns_compiled_as_given.
+Definition gen_compiles := patterns_compiled_as_given.
 
 (* ---- walk ---- *)
-Theorem walk_excl_sound : forall raw pats root dest base t, gcompile gen raw = Some pats ->
+Lemma walk_excl_sound_c : forall raw pats root dest base t, gcompile gen raw = Some pats ->
   exists out, grun_op gen OWalk raw root dest base t = GOut out /\
               forall rel d, In (rel, d) out -> ~ fully_matched pats rel.
 Proof.
   intros. eexists. split; [apply g_walk_out; [facts|facts|eassumption]|].
   intros rel d I M. apply walk_exact in I as (_ & m & _ & _ & C). eapply fully_matched_not_clear; eauto.
 Qed.
+Theorem walk_excl_sound : forall raw root dest base t, ~ In Bad raw ->
+  exists out, grun_op gen OWalk raw root dest base t = GOut out /\
+              forall rel d, In (rel, d) out -> ~ fully_matched (goods raw) rel.
+Proof. intros raw root dest base t NB. exact (walk_excl_sound_c raw (goods raw) root dest base t (gen_compiles raw NB)). Qed.
 Print Assumptions walk_excl_sound.
 
-Theorem walk_excl_complete : forall raw pats root dest base t rel m, gcompile gen raw = Some pats ->
+Lemma walk_excl_complete_c : forall raw pats root dest base t rel m, gcompile gen raw = Some pats ->
   ~ hit pats root -> at_path t rel m -> clear pats rel ->
   exists out, grun_op gen OWalk raw root dest base t = GOut out /\ In (rel, is_dir m) out.
 Proof.
   intros. eexists. split; [apply g_walk_out; [facts|facts|eassumption]|].
   apply walk_exact. split; auto. exists m. auto.
 Qed.
+Theorem walk_excl_complete : forall raw root dest base t rel m, ~ In Bad raw ->
+  ~ hit (goods raw) root -> at_path t rel m -> clear (goods raw) rel ->
+  exists out, grun_op gen OWalk raw root dest base t = GOut out /\ In (rel, is_dir m) out.
+Proof. intros raw root dest base t rel m NB. exact (walk_excl_complete_c raw (goods raw) root dest base t rel m (gen_compiles raw NB)). Qed.
 Print Assumptions walk_excl_complete.
 
 (* ---- list ---- *)
-Theorem ls_excl_sound : forall raw pats root dest base t, gcompile gen raw = Some pats ->
+Lemma ls_excl_sound_c : forall raw pats root dest base t, gcompile gen raw = Some pats ->
   exists out, grun_op gen OLs raw root dest base t = GOut out /\
               forall rel d, In (rel, d) out -> ~ fully_matched pats rel.
 Proof.
   intros. eexists. split; [apply g_ls_out; [facts|facts|eassumption]|].
   intros rel d I M. apply ls_exact in I as ((m & _ & _ & C) & _). eapply fully_matched_not_clear; eauto.
 Qed.
+Theorem ls_excl_sound : forall raw root dest base t, ~ In Bad raw ->
+  exists out, grun_op gen OLs raw root dest base t = GOut out /\
+              forall rel d, In (rel, d) out -> ~ fully_matched (goods raw) rel.
+Proof. intros raw root dest base t NB. exact (ls_excl_sound_c raw (goods raw) root dest base t (gen_compiles raw NB)). Qed.
 Print Assumptions ls_excl_sound.
 
-Theorem ls_excl_complete : forall raw pats root dest base t x m, gcompile gen raw = Some pats ->
+Lemma ls_excl_complete_c : forall raw pats root dest base t x m, gcompile gen raw = Some pats ->
   at_path t [x] m -> clear pats [x] ->
   exists out, grun_op gen OLs raw root dest base t = GOut out /\ In ([x], is_dir m) out.
 Proof.
   intros. eexists. split; [apply g_ls_out; [facts|facts|eassumption]|].
   apply ls_exact. split; auto. exists m. auto.
 Qed.
+Theorem ls_excl_complete : forall raw root dest base t x m, ~ In Bad raw ->
+  at_path t [x] m -> clear (goods raw) [x] ->
+  exists out, grun_op gen OLs raw root dest base t = GOut out /\ In ([x], is_dir m) out.
+Proof. intros raw root dest base t x m NB. exact (ls_excl_complete_c raw (goods raw) root dest base t x m (gen_compiles raw NB)). Qed.
 Print Assumptions ls_excl_complete.
 
 (* ---- recursive list ---- *)
-Theorem lsrec_excl_sound : forall raw pats root dest base t incl, gcompile gen raw = Some pats ->
+Lemma lsrec_excl_sound_c : forall raw pats root dest base t incl, gcompile gen raw = Some pats ->
   exists out, grun_op gen (OLsRec incl) raw root dest base t = GOut out /\
               forall rel d, In (rel, d) out -> ~ fully_matched pats rel.
 Proof.
   intros. eexists. split; [apply g_lsrec_out; [facts|facts|facts|eassumption]|].
   intros rel d I M. apply ls_rec_exact in I as (_ & (m & _ & _ & C) & _). eapply fully_matched_not_clear; eauto.
 Qed.
+Theorem lsrec_excl_sound : forall raw root dest base t incl, ~ In Bad raw ->
+  exists out, grun_op gen (OLsRec incl) raw root dest base t = GOut out /\
+              forall rel d, In (rel, d) out -> ~ fully_matched (goods raw) rel.
+Proof. intros raw root dest base t incl NB. exact (lsrec_excl_sound_c raw (goods raw) root dest base t incl (gen_compiles raw NB)). Qed.
 Print Assumptions lsrec_excl_sound.
 
-Theorem lsrec_excl_complete : forall raw pats root dest base t incl rel m, gcompile gen raw = Some pats ->
+Lemma lsrec_excl_complete_c : forall raw pats root dest base t incl rel m, gcompile gen raw = Some pats ->
   ~ hit pats root -> at_path t rel m -> clear pats rel -> (incl = true \/ is_dir m = false) ->
   exists out, grun_op gen (OLsRec incl) raw root dest base t = GOut out /\ In (rel, is_dir m) out.
 Proof.
   intros. eexists. split; [apply g_lsrec_out; [facts|facts|facts|eassumption]|].
   apply ls_rec_exact. repeat split; auto. exists m. auto.
 Qed.
+Theorem lsrec_excl_complete : forall raw root dest base t incl rel m, ~ In Bad raw ->
+  ~ hit (goods raw) root -> at_path t rel m -> clear (goods raw) rel -> (incl = true \/ is_dir m = false) ->
+  exists out, grun_op gen (OLsRec incl) raw root dest base t = GOut out /\ In (rel, is_dir m) out.
+Proof. intros raw root dest base t incl rel m NB. exact (lsrec_excl_complete_c raw (goods raw) root dest base t incl rel m (gen_compiles raw NB)). Qed.
 Print Assumptions lsrec_excl_complete.
 
 (* ---- tree listing ---- *)
-Theorem listtree_excl_sound : forall raw pats root dest base t, gcompile gen raw = Some pats ->
+Lemma listtree_excl_sound_c : forall raw pats root dest base t, gcompile gen raw = Some pats ->
   exists out, grun_op gen OListTree raw root dest base t = GOut out /\
               forall rel d, In (rel, d) out -> ~ fully_matched pats rel.
 Proof.
   intros. eexists. split; [apply g_tree_out; [facts|facts|eassumption]|].
   intros rel d I M. apply list_tree_exact in I as ((m & _ & _ & C) & _). eapply fully_matched_not_clear; eauto.
 Qed.
+Theorem listtree_excl_sound : forall raw root dest base t, ~ In Bad raw ->
+  exists out, grun_op gen OListTree raw root dest base t = GOut out /\
+              forall rel d, In (rel, d) out -> ~ fully_matched (goods raw) rel.
+Proof. intros raw root dest base t NB. exact (listtree_excl_sound_c raw (goods raw) root dest base t (gen_compiles raw NB)). Qed.
 Print Assumptions listtree_excl_sound.
 
-Theorem listtree_excl_complete : forall raw pats root dest base t rel m, gcompile gen raw = Some pats ->
+Lemma listtree_excl_complete_c : forall raw pats root dest base t rel m, gcompile gen raw = Some pats ->
   at_path t rel m -> rel <> [] -> clear pats rel ->
   exists out, grun_op gen OListTree raw root dest base t = GOut out /\ In (rel, is_dir m) out.
 Proof.
   intros. eexists. split; [apply g_tree_out; [facts|facts|eassumption]|].
   apply list_tree_exact. split; auto. exists m. auto.
 Qed.
+Theorem listtree_excl_complete : forall raw root dest base t rel m, ~ In Bad raw ->
+  at_path t rel m -> rel <> [] -> clear (goods raw) rel ->
+  exists out, grun_op gen OListTree raw root dest base t = GOut out /\ In (rel, is_dir m) out.
+Proof. intros raw root dest base t rel m NB. exact (listtree_excl_complete_c raw (goods raw) root dest base t rel m (gen_compiles raw NB)). Qed.
 Print Assumptions listtree_excl_complete.
 
 (* ---- sub-directories ---- *)
-Theorem subdirs_excl_sound : forall raw pats root dest base t, gcompile gen raw = Some pats ->
+Lemma subdirs_excl_sound_c : forall raw pats root dest base t, gcompile gen raw = Some pats ->
   exists out, grun_op gen OSubDirs raw root dest base t = GOut out /\
               forall rel d, In (rel, d) out -> ~ fully_matched pats rel.
 Proof.
   intros. eexists. split; [apply g_sub_out; [reflexivity|facts|eassumption]|].
   intros rel d I M. apply subdirs_exact in I as ((m & _ & _ & C) & _). eapply fully_matched_not_clear; eauto.
 Qed.
+Theorem subdirs_excl_sound : forall raw root dest base t, ~ In Bad raw ->
+  exists out, grun_op gen OSubDirs raw root dest base t = GOut out /\
+              forall rel d, In (rel, d) out -> ~ fully_matched (goods raw) rel.
+Proof. intros raw root dest base t NB. exact (subdirs_excl_sound_c raw (goods raw) root dest base t (gen_compiles raw NB)). Qed.
 Print Assumptions subdirs_excl_sound.
 
-Theorem subdirs_excl_complete : forall raw pats root dest base t x m, gcompile gen raw = Some pats ->
+Lemma subdirs_excl_complete_c : forall raw pats root dest base t x m, gcompile gen raw = Some pats ->
   at_path t [x] m -> is_dir m = true -> clear pats [x] ->
   exists out, grun_op gen OSubDirs raw root dest base t = GOut out /\ In ([x], true) out.
 Proof.
   intros. eexists. split; [apply g_sub_out; [reflexivity|facts|eassumption]|].
   apply subdirs_exact. repeat split; auto. exists m. auto.
 Qed.
+Theorem subdirs_excl_complete : forall raw root dest base t x m, ~ In Bad raw ->
+  at_path t [x] m -> is_dir m = true -> clear (goods raw) [x] ->
+  exists out, grun_op gen OSubDirs raw root dest base t = GOut out /\ In ([x], true) out.
+Proof. intros raw root dest base t x m NB. exact (subdirs_excl_complete_c raw (goods raw) root dest base t x m (gen_compiles raw NB)). Qed.
 Print Assumptions subdirs_excl_complete.
 
 (* ---- zip ---- *)
-Theorem zip_excl_sound : forall raw pats root dest base t, gcompile gen raw = Some pats ->
+Lemma zip_excl_sound_c : forall raw pats root dest base t, gcompile gen raw = Some pats ->
   exists out, grun_op gen OZip raw root dest base t = GOut out /\
               forall rel d, In (rel, d) out -> ~ fully_matched pats rel.
 Proof.
   intros. eexists. split; [apply g_zip_out; [facts|facts|facts|eassumption]|].
   intros rel d I M. apply zip_exact in I as (_ & (m & _ & _ & C) & _). eapply fully_matched_not_clear; eauto.
 Qed.
+Theorem zip_excl_sound : forall raw root dest base t, ~ In Bad raw ->
+  exists out, grun_op gen OZip raw root dest base t = GOut out /\
+              forall rel d, In (rel, d) out -> ~ fully_matched (goods raw) rel.
+Proof. intros raw root dest base t NB. exact (zip_excl_sound_c raw (goods raw) root dest base t (gen_compiles raw NB)). Qed.
 Print Assumptions zip_excl_sound.
 
-Theorem zip_excl_complete : forall raw pats root dest base t rel m, gcompile gen raw = Some pats ->
+Lemma zip_excl_complete_c : forall raw pats root dest base t rel m, gcompile gen raw = Some pats ->
   ~ hit pats root -> at_path t rel m -> rel <> [] -> clear pats rel ->
   exists out, grun_op gen OZip raw root dest base t = GOut out /\ In (rel, is_dir m) out.
 Proof.
   intros. eexists. split; [apply g_zip_out; [facts|facts|facts|eassumption]|].
   apply zip_exact. repeat split; auto. exists m. auto.
 Qed.
+Theorem zip_excl_complete : forall raw root dest base t rel m, ~ In Bad raw ->
+  ~ hit (goods raw) root -> at_path t rel m -> rel <> [] -> clear (goods raw) rel ->
+  exists out, grun_op gen OZip raw root dest base t = GOut out /\ In (rel, is_dir m) out.
+Proof. intros raw root dest base t rel m NB. exact (zip_excl_complete_c raw (goods raw) root dest base t rel m (gen_compiles raw NB)). Qed.
 Print Assumptions zip_excl_complete.
 
 (* ---- copy (tests whole source and destination paths) ---- *)
-Theorem copy_excl_sound : forall raw pats src dest base dest_exists t, gcompile gen raw = Some pats ->
+Lemma copy_excl_sound_c : forall raw pats src dest base dest_exists t, gcompile gen raw = Some pats ->
   exists out, grun_op gen (OCopy dest_exists) raw src dest base t = GOut out /\
     forall rel d, In (rel, d) out ->
       exists rel', rel = dest_prefix dest_exists base ++ rel' /\ (exists m, at_path t rel' m /\ is_dir m = d) /\
@@ -155,10 +205,16 @@ Proof.
   intros rel d I. apply copy_top_sound in I as (rel' & E & A & C). exists rel'. repeat split; auto.
   intro M. eapply fully_matched_not_clear; eauto.
 Qed.
+Theorem copy_excl_sound : forall raw src dest base dest_exists t, ~ In Bad raw ->
+  exists out, grun_op gen (OCopy dest_exists) raw src dest base t = GOut out /\
+    forall rel d, In (rel, d) out ->
+      exists rel', rel = dest_prefix dest_exists base ++ rel' /\ (exists m, at_path t rel' m /\ is_dir m = d) /\
+                   ~ fully_matched (goods raw) rel'.
+Proof. intros raw src dest base dest_exists t NB. exact (copy_excl_sound_c raw (goods raw) src dest base dest_exists t (gen_compiles raw NB)). Qed.
 Print Assumptions copy_excl_sound.
 
 (* complete for patterns that cannot match the separator; source and destination paths without a match *)
-Theorem copy_excl_complete : forall raw pats src dest base dest_exists t rel m, gcompile gen raw = Some pats ->
+Lemma copy_excl_complete_c : forall raw pats src dest base dest_exists t rel m, gcompile gen raw = Some pats ->
   all_sepfree pats -> ~ hit pats src -> ~ hit pats dest -> (dest_exists = true -> ~ hit pats base) ->
   at_path t rel m -> clear pats rel ->
   exists out, grun_op gen (OCopy dest_exists) raw src dest base t = GOut out /\
@@ -166,25 +222,32 @@ Theorem copy_excl_complete : forall raw pats src dest base dest_exists t rel m, 
 Proof.
   intros. eexists. split; [apply g_copy_out; [facts|facts|eassumption]|]. now apply copy_top_complete.
 Qed.
+Theorem copy_excl_complete : forall raw src dest base dest_exists t rel m, ~ In Bad raw ->
+  all_sepfree (goods raw) -> ~ hit (goods raw) src -> ~ hit (goods raw) dest -> (dest_exists = true -> ~ hit (goods raw) base) ->
+  at_path t rel m -> clear (goods raw) rel ->
+  exists out, grun_op gen (OCopy dest_exists) raw src dest base t = GOut out /\
+              In (dest_prefix dest_exists base ++ rel, is_dir m) out.
+Proof. intros raw src dest base dest_exists t rel m NB. exact (copy_excl_complete_c raw (goods raw) src dest base dest_exists t rel m (gen_compiles raw NB)). Qed.
 Print Assumptions copy_excl_complete.
 
 (* FINDING D29 — the restriction is necessary: with pattern a.b and the tree a/b no name contains a match, the
    listings report a/b, yet Copy skips it. Replayed on the implementation on every run. *)
 Theorem copy_excl_complete_refuted :
-  exists raw pats src dest t rel m, gcompile gen raw = Some pats /\
-    ~ hit pats src /\ ~ hit pats dest /\ at_path t rel m /\ clear pats rel /\
+  exists raw src dest t rel m, ~ In Bad raw /\
+    ~ hit (goods raw) src /\ ~ hit (goods raw) dest /\ at_path t rel m /\ clear (goods raw) rel /\
     forall out, grun_op gen (OCopy false) raw src dest [] t = GOut out -> ~ In (rel, is_dir m) out.
 Proof.
   destruct copy_complete_refuted as (pats & src & dest & t & rel & m & S & D & A & C & N).
-  exists (map Good pats), pats, src, dest, t, rel, m. repeat split; auto; [apply gcompile_goods|].
-  intros out R. rewrite (g_copy_out gen (map Good pats) pats) in R; [|facts|facts|apply gcompile_goods].
+  exists (map Good pats), src, dest, t, rel, m. rewrite goods_map_good.
+  repeat split; auto; [apply bad_not_in_goods|].
+  intros out R. rewrite (g_copy_out gen (map Good pats) pats) in R; [|facts|facts|apply gcompile_goods; reflexivity].
   inversion R; subst. exact N.
 Qed.
 Print Assumptions copy_excl_complete_refuted.
 
 (* ---- remove ---- *)
 (* an entry with a fully matched component survives, with everything it holds *)
-Theorem remove_excl_sound : forall raw pats root dest base t rel m, gcompile gen raw = Some pats ->
+Lemma remove_excl_sound_c : forall raw pats root dest base t rel m, gcompile gen raw = Some pats ->
   at_path t rel m -> fully_matched pats rel ->
   exists t', grun_op gen ORemove raw root dest base t = GOut (all_entries t') /\ at_path t' rel m.
 Proof.
@@ -192,10 +255,14 @@ Proof.
   destruct (remove_keeps (expand pats) t root rel m A (fully_matched_name_excluded _ _ M)) as (t' & R & A').
   exists t'. split; auto. rewrite (g_remove_out gen raw pats); [|reflexivity|facts|assumption]. now rewrite R.
 Qed.
+Theorem remove_excl_sound : forall raw root dest base t rel m, ~ In Bad raw ->
+  at_path t rel m -> fully_matched (goods raw) rel ->
+  exists t', grun_op gen ORemove raw root dest base t = GOut (all_entries t') /\ at_path t' rel m.
+Proof. intros raw root dest base t rel m NB. exact (remove_excl_sound_c raw (goods raw) root dest base t rel m (gen_compiles raw NB)). Qed.
 Print Assumptions remove_excl_sound.
 
 (* if nothing at or below rel contains a match (and the root path does not either) nothing is left at rel *)
-Theorem remove_excl_complete : forall raw pats root dest base t rel, gcompile gen raw = Some pats ->
+Lemma remove_excl_complete_c : forall raw pats root dest base t rel, gcompile gen raw = Some pats ->
   ~ hit pats root -> (forall rel2 m2, at_path t (rel ++ rel2) m2 -> clear pats (rel ++ rel2)) ->
   exists r, grun_op gen ORemove raw root dest base t = GOut (survivors r) /\
             forall t', r = Some t' -> forall m', ~ at_path t' rel m'.
@@ -206,10 +273,15 @@ Proof.
   - now apply excl_expand_iff in X.
   - eapply name_excluded_not_clear; eauto.
 Qed.
+Theorem remove_excl_complete : forall raw root dest base t rel, ~ In Bad raw ->
+  ~ hit (goods raw) root -> (forall rel2 m2, at_path t (rel ++ rel2) m2 -> clear (goods raw) (rel ++ rel2)) ->
+  exists r, grun_op gen ORemove raw root dest base t = GOut (survivors r) /\
+            forall t', r = Some t' -> forall m', ~ at_path t' rel m'.
+Proof. intros raw root dest base t rel NB. exact (remove_excl_complete_c raw (goods raw) root dest base t rel (gen_compiles raw NB)). Qed.
 Print Assumptions remove_excl_complete.
 
 (* ---- clean ---- *)
-Theorem clean_excl_sound : forall raw pats root dest base t rel m, gcompile gen raw = Some pats ->
+Lemma clean_excl_sound_c : forall raw pats root dest base t rel m, gcompile gen raw = Some pats ->
   at_path t rel m -> fully_matched pats rel ->
   exists t', grun_op gen OClean raw root dest base t = GOut (all_entries t') /\ at_path t' rel m.
 Proof.
@@ -217,9 +289,13 @@ Proof.
   split; [apply g_clean_out; [reflexivity|facts|assumption]|].
   apply clean_keeps; auto. now apply fully_matched_name_excluded.
 Qed.
+Theorem clean_excl_sound : forall raw root dest base t rel m, ~ In Bad raw ->
+  at_path t rel m -> fully_matched (goods raw) rel ->
+  exists t', grun_op gen OClean raw root dest base t = GOut (all_entries t') /\ at_path t' rel m.
+Proof. intros raw root dest base t rel m NB. exact (clean_excl_sound_c raw (goods raw) root dest base t rel m (gen_compiles raw NB)). Qed.
 Print Assumptions clean_excl_sound.
 
-Theorem clean_excl_complete : forall raw pats root dest base t rel, gcompile gen raw = Some pats ->
+Lemma clean_excl_complete_c : forall raw pats root dest base t rel, gcompile gen raw = Some pats ->
   rel <> [] -> (forall rel2 m2, at_path t (rel ++ rel2) m2 -> clear pats (rel ++ rel2)) ->
   exists t', grun_op gen OClean raw root dest base t = GOut (all_entries t') /\ forall m', ~ at_path t' rel m'.
 Proof.
@@ -228,6 +304,10 @@ Proof.
   intros m' A. destruct (clean_survivor _ _ _ _ A) as [->|(rel2 & m2 & A2 & N)]; [congruence|].
   eapply name_excluded_not_clear; eauto.
 Qed.
+Theorem clean_excl_complete : forall raw root dest base t rel, ~ In Bad raw ->
+  rel <> [] -> (forall rel2 m2, at_path t (rel ++ rel2) m2 -> clear (goods raw) (rel ++ rel2)) ->
+  exists t', grun_op gen OClean raw root dest base t = GOut (all_entries t') /\ forall m', ~ at_path t' rel m'.
+Proof. intros raw root dest base t rel NB. exact (clean_excl_complete_c raw (goods raw) root dest base t rel (gen_compiles raw NB)). Qed.
 Print Assumptions clean_excl_complete.
 
 (* ---- all operations ---- *)
@@ -271,7 +351,8 @@ Definition ex_tree : node :=                         (* ab/{x, d/a}, xab/x, d/{a
 Definition ex_raw : list rawpat := [Blank; Good (Cat (Chr 97) (Chr 98))].      (* " ", ab *)
 Definition ex_pats : list re := [Cat (Chr 97) (Chr 98)].
 Definition ex_root : str := [47;119;47;116].                                      (* /w/t *)
-Example ex_compile : gcompile gen ex_raw = Some ex_pats. Proof. reflexivity. Qed.
+Example ex_compile : gcompile gen ex_raw = Some ex_pats /\ goods ex_raw = ex_pats /\ ~ In Bad ex_raw.
+Proof. repeat split. intros [H|[H|[]]]; discriminate. Qed.
 Example ex_root_clear : ~ hit ex_pats ex_root.
 Proof. apply excl_expand_false. reflexivity. Qed.
 Example ex_walk : grun_op gen OWalk ex_raw ex_root [] [] ex_tree =
